@@ -1,5 +1,95 @@
 -------------------------------- MODULE Csr --------------------------------
-(* CSR / RoCC instruction level: events and the declared-map lowering of accfg events *)
-EXTENDS Integers, Sequences
-CsrPlaceholder == TRUE
+(***************************************************************************)
+(* CSR / RoCC level.  D is the list of accelerator declarations exported   *)
+(* from the accfg.accelerator ops of the program being lowered:            *)
+(*   [acc, rocc, fields : Seq([name, addr, insn, slot]),                   *)
+(*    launch : Seq([name, addr, insn, slot]), barrier, clear : Seq(Int)]   *)
+(* MatchCsr walks the accfg-level log of the source program and consumes   *)
+(* the CSR-level log of the lowered program: a setup is one write per      *)
+(* listed field, in listed order, to the declared address; a launch one    *)
+(* write per launch value to the declared launch register; an await >= 1   *)
+(* read of the declared barrier register (followed by the declared clear   *)
+(* write for the HWPE handshake).  For RoCC accelerators a setup / launch  *)
+(* is the SET of instructions touched, each carrying the values currently  *)
+(* in effect for both of its source fields (0 if never set).               *)
+(***************************************************************************)
+EXTENDS Integers, Sequences, FiniteSets
+
+Decl(D, acc) == D[CHOOSE i \in DOMAIN D : D[i].acc = acc]
+HasDecl(D, acc) == \E i \in DOMAIN D : D[i].acc = acc
+Entry(tab, name) == tab[CHOOSE i \in DOMAIN tab : tab[i].name = name]
+HasEntry(tab, name) == \E i \in DOMAIN tab : tab[i].name = name
+
+IsW(e, addr, v) == e.k = "w" /\ e.addr = addr /\ e.v = v
+IsR(e, addr) == e.k = "r" /\ e.addr = addr
+
+RECURSIVE SkipReads(_, _, _)
+SkipReads(blog, j, addr) == IF j <= Len(blog) /\ IsR(blog[j], addr) THEN SkipReads(blog, j + 1, addr) ELSE j
+
+(* value in effect for rocc source field (insn, slot) after the event's register snapshot *)
+InEffect(e, tab, insn, slot) ==
+  LET cands == {i \in DOMAIN tab : tab[i].insn = insn /\ tab[i].slot = slot} IN
+  IF cands = {} THEN 0
+  ELSE LET nm == tab[CHOOSE i \in cands : TRUE].name IN
+       IF <<e.acc, nm>> \in DOMAIN e.snap /\ e.snap[<<e.acc, nm>>].def THEN e.snap[<<e.acc, nm>>].v ELSE 0
+
+RoccSetupInsns(e, d) ==
+  LET touched == {Entry(d.fields, e.names[k]).insn : k \in {k2 \in DOMAIN e.names : HasEntry(d.fields, e.names[k2])}} IN
+  {[f7 |-> Entry(d.fields, CHOOSE nm \in {d.fields[i].name : i \in {i2 \in DOMAIN d.fields : d.fields[i2].insn = ins /\ d.fields[i2].slot = 1}} : TRUE).addr,
+    rs1 |-> InEffect(e, d.fields, ins, 1), rs2 |-> InEffect(e, d.fields, ins, 2)] : ins \in touched}
+
+LaunchVal(e, tab, insn, slot) ==
+  LET cands == {k \in DOMAIN e.names : HasEntry(tab, e.names[k]) /\ Entry(tab, e.names[k]).insn = insn /\ Entry(tab, e.names[k]).slot = slot} IN
+  IF cands = {} THEN 0 ELSE e.vals[CHOOSE k \in cands : TRUE]
+
+RoccLaunchInsns(e, d) ==
+  LET touched == {Entry(d.launch, e.names[k]).insn : k \in {k2 \in DOMAIN e.names : HasEntry(d.launch, e.names[k2])}} IN
+  {[f7 |-> Entry(d.launch, CHOOSE nm \in {d.launch[i].name : i \in {i2 \in DOMAIN d.launch : d.launch[i2].insn = ins /\ d.launch[i2].slot = 1}} : TRUE).addr,
+    rs1 |-> LaunchVal(e, d.launch, ins, 1), rs2 |-> LaunchVal(e, d.launch, ins, 2)] : ins \in touched}
+
+InsnSet(blog, j, n) == {[f7 |-> blog[k].f7, rs1 |-> blog[k].rs1, rs2 |-> blog[k].rs2] : k \in j..(j + n - 1)}
+
+RECURSIVE MatchCsr(_, _, _, _, _)
+MatchCsr(D, alog, i, blog, j) ==
+  IF i > Len(alog)
+  THEN (IF j > Len(blog) THEN "ok" ELSE "ExtraLoweredEvents")
+  ELSE LET e == alog[i] IN
+    CASE e.k = "ret" -> MatchCsr(D, alog, i + 1, blog, IF j <= Len(blog) /\ blog[j].k = "ret" THEN j + 1 ELSE j)
+      [] e.k = "op" ->
+           IF j <= Len(blog) /\ blog[j].k = "op" /\ blog[j].n = e.n /\ blog[j].s = e.s /\ blog[j].vals = e.vals
+           THEN MatchCsr(D, alog, i + 1, blog, j + 1) ELSE "OpaqueOrder"
+      [] e.k \in {"setup", "launch"} /\ ~HasDecl(D, e.acc) -> "UndeclaredAccelerator"
+      [] e.k = "setup" /\ Decl(D, e.acc).rocc = 1 ->
+           LET exp == RoccSetupInsns(e, Decl(D, e.acc))  n == Cardinality(exp) IN
+           IF j + n - 1 <= Len(blog) /\ (\A k \in j..(j + n - 1) : blog[k].k = "insn") /\ InsnSet(blog, j, n) = exp
+           THEN MatchCsr(D, alog, i + 1, blog, j + n) ELSE "RoccSetupInstructions"
+      [] e.k = "launch" /\ Decl(D, e.acc).rocc = 1 ->
+           LET exp == RoccLaunchInsns(e, Decl(D, e.acc))  n == Cardinality(exp) IN
+           IF j + n - 1 <= Len(blog) /\ (\A k \in j..(j + n - 1) : blog[k].k = "insn") /\ InsnSet(blog, j, n) = exp
+           THEN MatchCsr(D, alog, i + 1, blog, j + n) ELSE "RoccLaunchInstructions"
+      [] e.k = "setup" ->
+           LET d == Decl(D, e.acc)  n == Len(e.names) IN
+           IF /\ j + n - 1 <= Len(blog)
+              /\ \A k \in 1..n : HasEntry(d.fields, e.names[k]) /\ IsW(blog[j + k - 1], Entry(d.fields, e.names[k]).addr, e.vals[k])
+           THEN MatchCsr(D, alog, i + 1, blog, j + n) ELSE "SetupWrites"
+      [] e.k = "launch" ->
+           LET d == Decl(D, e.acc)  n == Len(e.names) IN
+           IF /\ j + n - 1 <= Len(blog)
+              /\ \A k \in 1..n : HasEntry(d.launch, e.names[k]) /\ IsW(blog[j + k - 1], Entry(d.launch, e.names[k]).addr, e.vals[k])
+           THEN MatchCsr(D, alog, i + 1, blog, j + n) ELSE "LaunchWrites"
+      [] e.k = "await" ->
+           IF ~HasDecl(D, e.acc) THEN "UndeclaredAccelerator"
+           ELSE LET d == Decl(D, e.acc) IN
+             IF d.rocc = 1 THEN MatchCsr(D, alog, i + 1, blog, j)
+             ELSE IF ~(j <= Len(blog) /\ IsR(blog[j], d.barrier)) THEN "AwaitPoll"
+             ELSE LET nextAlsoAwait == i < Len(alog) /\ alog[i + 1].k = "await" /\ alog[i + 1].acc = e.acc /\ Len(d.clear) = 0
+                      j2 == IF nextAlsoAwait THEN j + 1 ELSE SkipReads(blog, j, d.barrier) IN
+                  IF Len(d.clear) = 0 THEN MatchCsr(D, alog, i + 1, blog, j2)
+                  ELSE IF j2 <= Len(blog) /\ IsW(blog[j2], d.clear[1], d.clear[2])
+                       THEN MatchCsr(D, alog, i + 1, blog, j2 + 1) ELSE "AwaitClearWrite"
+      [] OTHER -> "UnknownSourceEvent"
+
+NoStateLeft(P) ==
+  /\ \A i \in DOMAIN P.ty : P.ty[i] \notin {"s", "t"}
+  /\ \A i \in DOMAIN P.ops : P.ops[i].k \notin {"setup", "launch", "await", "reset"}
 =============================================================================
